@@ -194,6 +194,8 @@ def g3(ctx, rep):
                 if e[0] == "push" and base_label(e[1]) == "diagnostics":
                     d = diag_of(e)
                     observed.setdefault(d["where"], []).append(d["range"])
+                    if d.get("built_at"):
+                        observed.setdefault(d["built_at"], []).append(d["range"])   # built in a helper, pushed by the caller
                     for r in d["related"] or []:
                         rels.append((d["where"], r))
 
